@@ -69,6 +69,9 @@ pub fn compose(r: &dyn Retracer, input: &str) -> (String, usize, usize) {
 
 /// Expected output lines for AST-kinded lines, from the reference model only (no crate parsing).
 pub fn expected_from_model(model: &Model, t: &TextTrace) -> Option<Vec<String>> {
+    if t.eol == 3 {
+        return None; // bare CR does not end a line for the text API: AST lines and text lines do not correspond
+    }
     let mut out = Vec::new();
     for (i, l) in t.lines.iter().enumerate() {
         match l {
